@@ -328,37 +328,41 @@ def live_replay(ck):
 STEP_STMT = ("forall s, wf s -> get f_E s = 0%%Z -> no_int s -> Spec816.bcd_defined (abs s) (Machine.mem s) = true -> "
              "refines_step_d s (%s s)")
 
-TRANSPORT_V = """(* per-run: the static refinement theorem transported to the REGENERATED models of both interpreters *)
+TRANSPORT_V = """(* per-run: the static refinement theorem transported to the REGENERATED model of the primary interpreter *)
 From Coq Require Import ZArith List.
 From Lib Require Import Machine.
 From Spec Require Import Spec816.
 From Snapshot Require Import GenFields.
 From Snapshot Require GenCpu65.
-From Gen Require GenCpu65 GenCpuAlt.
+From Gen Require GenCpu65.
 From Props Require Import C01Base C01AdcRef C01Props.
-From Run Require C01_snapeq C02_eq.
+From Run Require C01_snapeq.
 Theorem C01_step_primary : %(prim)s.
 Proof. rewrite <- C01_snapeq.seq_Step. exact C01_step. Qed.
-Theorem C01_step_alternative : %(alt)s.
-Proof. rewrite <- C02_eq.C02_step_eq. exact C01_step_primary. Qed.
 Print Assumptions C01_step_primary.
-Print Assumptions C01_step_alternative.
 """
 
-TRANSPORT_LIVE_V = """(* per-run: the replayed refinement theorem (proofs re-checked against the regenerated primary model) transported to the
-   regenerated model of the alternative interpreter *)
+TRANSPORT_LIVE_V = """(* per-run: the replayed refinement theorem (proofs re-checked against the regenerated primary model) *)
 From Coq Require Import ZArith List.
 From Lib Require Import Machine.
 From Spec Require Import Spec816.
 From Gen Require Import GenFields.
-From Gen Require GenCpu65 GenCpuAlt.
+From Gen Require GenCpu65.
 From Run Require Import C01L_C01Base C01L_C01AdcRef C01L_C01Props.
-From Run Require C02_eq.
 Theorem C01_step_primary : %(prim)s.
 Proof. exact C01_step. Qed.
-Theorem C01_step_alternative : %(alt)s.
-Proof. rewrite <- C02_eq.C02_step_eq. exact C01_step_primary. Qed.
 Print Assumptions C01_step_primary.
+"""
+
+TRANSPORT_ALT_V = """(* per-run: C01_step for the regenerated model of the alternative interpreter, through C02's equality *)
+From Coq Require Import ZArith List.
+From Lib Require Import Machine.
+From Spec Require Import Spec816.
+%(imports)s
+From Gen Require GenCpu65 GenCpuAlt.
+From Run Require C01_transport %(eqmod)s.
+Theorem C01_step_alternative : %(alt)s.
+Proof. rewrite <- %(eqmod)s.C02_step_eq. exact C01_transport.C01_step_primary. Qed.
 Print Assumptions C01_step_alternative.
 """
 
@@ -442,20 +446,15 @@ Print Assumptions C01_run_run.""" % (STEP_STMT % "Step")) if full else ""))
         ck.oblige("snapshot of the generated primary model present (coq/Snapshot/GenCpu65.v)", False, "missing")
         return
     ck.cov["snapshot_functions_changed"] = delta
-    # --- kernel-checked equality snapshot = regenerated model, function by function
-    gen65 = os.path.join(vlib.GEN, "GenCpu65.v")
-    txt, info = snapeq.generate(SNAPSHOT, gen65)
-    sv = os.path.join(vlib.RUN, "C01_snapeq.v")
-    vlib.write_if_changed(sv, txt)
-    rcs, outs, dts, _ = vlib.coqc(sv, timeout=1800)
-    snap_ok = rcs == 0 and not info["only_in_snapshot"]
+    # --- kernel-checked equality snapshot = regenerated model, function by function; and the equality of the two
+    #     regenerated models (pivot through the snapshots, or direct: checks/cpulink.py, the same files the C02 check produces)
+    from checks import cpulink
+    lk = cpulink.step_equality()
+    snap_ok, outs, info, _ = lk["snap"]["GenCpu65"]
     ck.cov["snapshot_equalities"] = len(info["lemmas"])
-    # --- C02's equality of the two regenerated models (the same file the C02 check produces)
-    txt2, info2 = cpueq.generate(gen65, os.path.join(vlib.GEN, "GenCpuAlt.v"))
-    ev = os.path.join(vlib.RUN, "C02_eq.v")
-    vlib.write_if_changed(ev, txt2)
-    rce, oute, dte, _ = vlib.coqc(ev, timeout=1800)
-    stm = {"prim": STEP_STMT % "Gen.GenCpu65.Step", "alt": STEP_STMT % "Gen.GenCpuAlt.Step"}
+    ck.cov["equality_route"] = lk["route"]
+    rce, oute, eqmod = (0 if lk["ok"] else 1), lk["out"], lk["module"]
+    stm = {"prim": STEP_STMT % "Gen.GenCpu65.Step", "alt": STEP_STMT % "Gen.GenCpuAlt.Step", "eqmod": eqmod}
     need_live = (not snap_ok) or ck.tier == "thorough"
     if snap_ok:
         ck.oblige("proof target = regenerated model: Snapshot.GenCpu65.f = Gen.GenCpu65.f for all %d functions and tables of the model "
@@ -466,7 +465,7 @@ Print Assumptions C01_run_run.""" % (STEP_STMT % "Step")) if full else ""))
         ck.cov["live_replay_s"] = round(secs, 1)
         if not snap_ok:
             ck.oblige("proof target = regenerated model: %s differs from the snapshot; the proof files were replayed against the "
-                      "regenerated model instead" % _first_failing(outs), okl,
+                      "regenerated model instead" % cpulink.first_failing(outs), okl,
                       "the refinement theorem does not apply to the changed functions: " + detail)
         else:
             ck.oblige("proof files replay against the regenerated model (From Gen)", okl, detail)
@@ -475,17 +474,27 @@ Print Assumptions C01_run_run.""" % (STEP_STMT % "Step")) if full else ""))
     tv = os.path.join(vlib.RUN, "C01_transport.v")
     if snap_ok:
         vlib.write_if_changed(tv, TRANSPORT_V % stm)
+        stm["imports"] = "From Snapshot Require Import GenFields.\nFrom Props Require Import C01Base C01AdcRef."
     elif okl:
         vlib.write_if_changed(tv, TRANSPORT_LIVE_V % stm)
+        stm["imports"] = "From Gen Require Import GenFields.\nFrom Run Require Import C01L_C01Base C01L_C01AdcRef."
     else:
         return
     rct, outt, dtt, _ = vlib.coqc(tv, timeout=900)
     ck.oblige("Theorem C01_step_primary: C01_step for the REGENERATED model of emulator/cpu65c816 (Gen.GenCpu65.Step)", rct == 0, outt)
-    ck.oblige("Theorem C01_step_alternative: C01_step for the REGENERATED model of emulator/cpualt (Gen.GenCpuAlt.Step), through "
-              "C02_step_eq : GenCpu65.Step = GenCpuAlt.Step", rct == 0 and rce == 0,
-              outt if rce == 0 else "C02's equality of the two regenerated models no longer checks: " + _first_failing(oute))
     if rct == 0:
         ck.assumptions += vlib.parse_assumptions(outt)
+    ta = os.path.join(vlib.RUN, "C01_transport_alt.v")
+    vlib.write_if_changed(ta, TRANSPORT_ALT_V % stm)
+    rca, outa = 1, ""
+    if rct == 0 and rce == 0:
+        rca, outa, _, _ = vlib.coqc(ta, timeout=900)
+    ck.oblige("Theorem C01_step_alternative: C01_step for the REGENERATED model of emulator/cpualt (Gen.GenCpuAlt.Step), through "
+              "C02_step_eq : GenCpu65.Step = GenCpuAlt.Step", rca == 0,
+              outa if rce == 0 else "C02's equality of the two regenerated models no longer checks (%s): the alternative interpreter is "
+              "covered by the differential run only" % cpulink.first_failing(oute))
+    if rca == 0:
+        ck.assumptions += vlib.parse_assumptions(outa)
     ck.sample({"theorem": "C01_step_alternative : " + stm["alt"]})
 
 
